@@ -397,3 +397,331 @@ def kq(*keys):
 
 def rule(name, body, when=None, lets=None, params=None):
     return {"name": name, "params": params, "when": when, "lets": lets or [], "body": body}
+
+
+# ------------------------------------------------------------------ random rule programs
+
+class Opts:
+    """feature switches for the program generator"""
+
+    def __init__(self, **kw):
+        self.refs = True          # named rule references
+        self.vars = True          # let variables (file/rule/block level)
+        self.blocks = True        # query blocks
+        self.whens = True         # when blocks / rule when guards
+        self.filters = True       # [ filter ] query steps
+        self.types = False        # type blocks AWS::X::Y { }
+        self.calls = False        # parameterised rules
+        self.fns = False          # function calls
+        self.some = True
+        self.prefix_not = True
+        self.rhs_query = True     # query / variable right-hand sides
+        self.msgs = False
+        self.default = True       # file-level (default rule) clauses
+        self.max_rules = 4
+        self.max_lines = 4
+        self.max_alts = 3
+        self.max_depth = 2        # block nesting
+        self.unary_w = 0.35
+        self.keys = KEYS
+        self.scalars = SCALARS
+        self.lit_kinds = ("scalar", "list", "regex", "range", "map")
+        self.in_w = 0.2
+        self.this_filter = False  # `this[ filter ]` (panics on maps today: C08 territory)
+        for k, v in kw.items():
+            if not hasattr(self, k):
+                raise AttributeError(k)
+            setattr(self, k, v)
+
+
+def _pick_scalar_like(rng, v, o):
+    """a literal 'near' value v: itself, or another scalar"""
+    if not isinstance(v, (dict, list)) and lit_spellable(v) and rng.random() < 0.55:
+        return v
+    for _ in range(10):
+        s = rng.choice(o.scalars)
+        if lit_spellable(s):
+            return s
+    return 1
+
+
+def gen_rhs_lit(rng, v, o, op):
+    kinds = o.lit_kinds
+    r = rng.random()
+    if op == "in":
+        if r < 0.75 or "range" not in kinds:
+            n = rng.randint(1, 3)
+            lst = [_pick_scalar_like(rng, v, o) for _ in range(n)]
+            return ["lit", lst]
+        if isinstance(v, float) and not isinstance(v, bool):
+            return ["lit", {"$range": [0.5, 2.5, rng.choice("[("), rng.choice(")]")]}]
+        return ["lit", {"$range": [rng.choice([0, 1]), rng.choice([2, 5, 10]), rng.choice("[("), rng.choice(")]")]}]
+    if op in ("<", "<=", ">", ">="):
+        return ["lit", _pick_scalar_like(rng, v, o)]
+    # ==
+    if r < 0.62 or kinds == ("scalar",):
+        return ["lit", _pick_scalar_like(rng, v, o)]
+    if r < 0.74 and "list" in kinds:
+        if isinstance(v, list) and lit_spellable(v) and rng.random() < 0.6:
+            return ["lit", v]
+        return ["lit", [_pick_scalar_like(rng, v, o) for _ in range(rng.randint(0, 2))]]
+    if r < 0.86 and "regex" in kinds:
+        return ["lit", {"$re": rng.choice(["a", "^a", "b$", "^AWS::", "^$", "[0-9]", "x/y", "Bucket"])}]
+    if r < 0.93 and "map" in kinds:
+        if isinstance(v, dict) and lit_spellable(v) and rng.random() < 0.7:
+            return ["lit", v]
+        return ["lit", {"a": 1}]
+    if "range" in kinds:
+        return ["lit", {"$range": [0, rng.choice([1, 2, 10]), rng.choice("[("), rng.choice(")]")]}]
+    return ["lit", _pick_scalar_like(rng, v, o)]
+
+
+def gen_walk(rng, v, o, maxsteps=4, allow_filter=True, depth=0, first=True):
+    """walk value v producing (query parts, a value reached or None).  Parts never start with a
+    non-head part; caller prepends `this` when needed."""
+    q = []
+    steps = rng.randint(1, maxsteps)
+    for s in range(steps):
+        if isinstance(v, dict) and v:
+            r = rng.random()
+            if r < 0.72:
+                k = rng.choice(list(v))
+                q.append(["key", k])
+                v = v[k]
+            elif r < 0.88 or not (allow_filter and o.filters):
+                q.append(["all"])
+                v = rng.choice(list(v.values()))
+            else:
+                vals = list(v.values())
+                tgt = rng.choice(vals)
+                if not q and not o.this_filter:
+                    q.append(["all"])
+                    v = tgt
+                    continue
+                if q[-1][0] not in ("key", "all", "allidx"):
+                    q.append(["all"])
+                    v = tgt
+                    continue
+                q.append(["filter", gen_filter(rng, tgt, o, depth)])
+                v = tgt
+        elif isinstance(v, list) and v:
+            r = rng.random()
+            if r < 0.5:
+                q.append(["allidx"])
+                v = rng.choice(v)
+            elif r < 0.7:
+                i = rng.randrange(len(v) + (1 if rng.random() < 0.2 else 0))
+                q.append(["idx", i] if rng.random() < 0.8 else ["dotidx", i])
+                v = v[i] if i < len(v) else None
+                if v is None and i >= 0:
+                    return q, None
+            elif r < 0.8 or not (allow_filter and o.filters) or not q or q[-1][0] not in ("key", "all", "allidx"):
+                q.append(["all"])
+                v = rng.choice(v)
+            else:
+                tgt = rng.choice(v)
+                q.append(["filter", gen_filter(rng, tgt, o, depth)])
+                v = tgt
+        else:
+            break
+    # perturbation: make it (partly) unresolvable
+    r = rng.random()
+    if r < 0.12:
+        q.append(["key", rng.choice(o.keys)])
+        v = v.get(q[-1][1]) if isinstance(v, dict) else None
+    elif r < 0.2 and q:
+        ks = [i for i, p in enumerate(q) if p[0] == "key"]
+        if ks:
+            i = rng.choice(ks)
+            q[i] = ["key", rng.choice(o.keys)]
+            v = None
+    return q, v
+
+
+def gen_filter(rng, elem, o, depth):
+    """CNF of 1-2 access clauses evaluated against a candidate element"""
+    lines = []
+    for _ in range(1 if rng.random() < 0.8 else 2):
+        alts = []
+        for _ in range(1 if rng.random() < 0.85 else 2):
+            alts.append(gen_access_clause(rng, elem, o, depth + 1, in_filter=True))
+        lines.append(alts)
+    return lines
+
+
+def head_fix(q, ctx_is_root):
+    if not q:
+        return [["this"]]
+    if q[0][0] in ("key", "var", "this"):
+        return q
+    return [["this"]] + q
+
+
+def gen_access_clause(rng, ctxv, o, depth, in_filter=False, vars_=()):
+    qvars = [x for x in vars_ if not x[2]]
+    use_var = o.vars and qvars and rng.random() < 0.3 and not in_filter
+    if use_var:
+        name, val, _ = rng.choice(qvars)
+        if isinstance(val, (dict, list)) and val and rng.random() < 0.7:
+            q, v = gen_walk(rng, val if not isinstance(val, list) else rng.choice(val), o, 2, allow_filter=False, depth=depth)
+            q = [p for p in q]
+            q = [["var", name]] + q
+        else:
+            q, v = [["var", name]], val
+    else:
+        q, v = gen_walk(rng, ctxv, o, 4 if not in_filter else 2, allow_filter=not in_filter and depth < 2, depth=depth)
+        q = head_fix(q, depth == 0)
+    some = o.some and rng.random() < 0.15
+    neg = o.prefix_not and rng.random() < 0.12
+    if rng.random() < o.unary_w:
+        op = rng.choice(UNARY if rng.random() < 0.6 else ["exists", "empty"])
+        if op == "empty" and isinstance(v, (int, float)) and rng.random() < 0.85:
+            op = "exists"
+        return clause(q, op, None, neg=neg, opneg=rng.random() < 0.3, some=some)
+    op = "in" if rng.random() < o.in_w else rng.choice(["==", "==", "==", "<", "<=", ">", ">="])
+    opneg = op in ("==", "in") and rng.random() < 0.25
+    if o.rhs_query and rng.random() < 0.15:
+        if vars_ and rng.random() < 0.5:
+            name, val, _ = rng.choice(list(vars_))
+            rhs = ["var", name]
+        else:
+            q2, _ = gen_walk(rng, ctxv, o, 3, allow_filter=False, depth=depth)
+            rhs = ["query", head_fix(q2, depth == 0)]
+    else:
+        tv = v
+        if isinstance(tv, list) and tv and rng.random() < 0.7:
+            tv = rng.choice(tv)
+        rhs = gen_rhs_lit(rng, tv, o, op)
+    return clause(q, op, rhs, neg=neg, opneg=opneg, some=some, msg=("m%d" % rng.randint(0, 9)) if o.msgs and rng.random() < 0.3 else None)
+
+
+def gen_alt(rng, ctxv, o, depth, env):
+    """env: dict(rules=[names referable], vars=[(name,value)], prules=[(name, nparams)], in_rule_level=bool)"""
+    r = rng.random()
+    if o.refs and env.get("refs") and env.get("allow_ref", True) and r < 0.14:
+        return {"t": "ref", "neg": rng.random() < 0.3, "name": rng.choice(env["refs"]), "msg": None}
+    if o.calls and env.get("prules") and r < 0.2:
+        name, nparams = rng.choice(env["prules"])
+        args = []
+        for _ in range(nparams):
+            if rng.random() < 0.5:
+                q2, _ = gen_walk(rng, ctxv, o, 3, allow_filter=False, depth=depth)
+                args.append(["query", head_fix(q2, depth == 0)])
+            else:
+                args.append(["lit", _pick_scalar_like(rng, None, o)])
+        return {"t": "call", "neg": False, "name": name, "args": args}
+    if o.blocks and depth < o.max_depth and r < 0.3:
+        q, v = gen_walk(rng, ctxv, o, 3, allow_filter=True, depth=depth)
+        q = head_fix(q, depth == 0)
+        inner = v if v is not None else {}
+        if isinstance(inner, list) and inner and q[-1][0] not in ("allidx", "all", "filter"):
+            # a block over a list value iterates the list itself; body sees the list
+            pass
+        lets, vars2 = gen_lets(rng, inner, o, depth + 1, "b%d" % depth, env)
+        env2 = dict(env, allow_ref=False, vars=list(env.get("vars", [])) + vars2)
+        return {"t": "block", "some": o.some and rng.random() < 0.12, "q": q, "lets": lets,
+                "body": gen_cnf(rng, inner, o, depth + 1, env2, maxlines=2), "not_empty": rng.random() < 0.08}
+    if o.whens and depth < o.max_depth and r < 0.4:
+        cond = gen_cond(rng, ctxv, o, depth, env)
+        lets, vars2 = gen_lets(rng, ctxv, o, depth + 1, "w%d" % depth, env)
+        env2 = dict(env, vars=list(env.get("vars", [])) + vars2)
+        if depth > 0:
+            env2["allow_ref"] = False
+        return {"t": "when", "cond": cond, "lets": lets, "body": gen_cnf(rng, ctxv, o, depth + 1, env2, maxlines=2)}
+    if (o.types and depth == 0 and env.get("root_is_ctx", True) and r < 0.5 and isinstance(ctxv, dict)
+            and isinstance(ctxv.get("Resources"), dict) and ctxv["Resources"]):
+        rv = {}
+        if isinstance(ctxv, dict) and isinstance(ctxv.get("Resources"), dict) and ctxv["Resources"]:
+            rv = rng.choice(list(ctxv["Resources"].values()))
+        lets, vars2 = gen_lets(rng, rv, o, depth + 1, "t%d" % depth, env)
+        env2 = dict(env, allow_ref=False, vars=list(env.get("vars", [])) + vars2)
+        return {"t": "type", "type": rng.choice(TYPES), "cond": gen_cond(rng, ctxv, o, depth, env) if rng.random() < 0.2 else None,
+                "lets": lets, "body": gen_cnf(rng, rv, o, depth + 1, env2, maxlines=2)}
+    return gen_access_clause(rng, ctxv, o, depth, vars_=env.get("vars", ()))
+
+
+def gen_cond(rng, ctxv, o, depth, env):
+    """when conditions: CNF of access clauses / refs (no blocks)"""
+    lines = []
+    for _ in range(1 if rng.random() < 0.75 else 2):
+        alts = []
+        for _ in range(1 if rng.random() < 0.8 else 2):
+            if o.refs and env.get("refs") and env.get("allow_ref", True) and rng.random() < 0.25:
+                alts.append({"t": "ref", "neg": rng.random() < 0.3, "name": rng.choice(env["refs"]), "msg": None})
+            else:
+                alts.append(gen_access_clause(rng, ctxv, o, depth, vars_=env.get("vars", ())))
+        lines.append(alts)
+    return lines
+
+
+def gen_cnf(rng, ctxv, o, depth, env, maxlines=None):
+    n = rng.randint(1, maxlines or o.max_lines)
+    lines = []
+    for _ in range(n):
+        k = 1 if rng.random() < 0.7 else rng.randint(2, o.max_alts)
+        lines.append([gen_alt(rng, ctxv, o, depth, env) for _ in range(k)])
+    return lines
+
+
+def gen_lets(rng, ctxv, o, depth, prefix, env):
+    """returns (lets, [(name, model value or None)])"""
+    if not o.vars or rng.random() < 0.55:
+        return [], []
+    lets, vs = [], []
+    for i in range(rng.randint(1, 2)):
+        name = "%sv%d" % (prefix, i)
+        if rng.random() < 0.4:
+            val = _pick_scalar_like(rng, None, o) if rng.random() < 0.7 else [_pick_scalar_like(rng, None, o) for _ in range(2)]
+            lets.append([name, ["lit", val]])
+            vs.append((name, val, True))
+        else:
+            q, v = gen_walk(rng, ctxv, o, 3, allow_filter=o.filters and rng.random() < 0.3, depth=depth)
+            q = head_fix(q, depth == 0)
+            lets.append([name, ["query", q]])
+            vs.append((name, v, False))
+    return lets, vs
+
+
+def gen_file(rng, doc, o=None):
+    o = o or Opts()
+    nrules = rng.randint(1, o.max_rules)
+    names = ["r%d" % i for i in range(nrules)]
+    order = list(range(nrules))
+    rng.shuffle(order)          # rule i may reference rules later in `order` (acyclic)
+    rank = {idx: pos for pos, idx in enumerate(order)}
+    flets, fvars = gen_lets(rng, doc, o, 0, "f", {})
+    prules = []
+    rules = []
+    if o.calls and rng.random() < 0.5:
+        np_ = rng.randint(1, 2)
+        params = ["p%d" % i for i in range(np_)]
+        body = []
+        for _ in range(rng.randint(1, 2)):
+            p = rng.choice(params)
+            op = rng.choice(["==", "exists", "in", "is_string", "!empty"])
+            if op == "==":
+                body.append([clause([["var", p]], "==", ["lit", _pick_scalar_like(rng, None, o)])])
+            elif op == "in":
+                body.append([clause([["var", p]], "in", ["lit", [_pick_scalar_like(rng, None, o) for _ in range(2)]])])
+            elif op == "!empty":
+                body.append([clause([["var", p]], "empty", None, opneg=True)])
+            else:
+                body.append([clause([["var", p]], op, None)])
+        rules.append(rule("pr0", body, params=params))
+        prules.append(("pr0", np_))
+    for i in range(nrules):
+        refs = [names[j] for j in range(nrules) if rank[j] > rank[i]]
+        env = {"refs": refs, "vars": list(fvars), "prules": prules, "allow_ref": True}
+        when = gen_cond(rng, doc, o, 0, env) if o.whens and rng.random() < 0.25 else None
+        lets, vars2 = gen_lets(rng, doc, o, 0, "r%d" % i, env)
+        env2 = dict(env, vars=list(fvars) + vars2)
+        rules.append(rule(names[i], gen_cnf(rng, doc, o, 0, env2), when=when, lets=lets))
+    default = []
+    if o.default and rng.random() < 0.2:
+        env = {"refs": [], "vars": list(fvars), "prules": prules, "allow_ref": False}
+        import copy
+        o2 = copy.copy(o)
+        o2.whens = False
+        o2.types = False
+        default = gen_cnf(rng, doc, o2, 0, env, maxlines=2)
+    return {"lets": flets, "rules": rules, "default": default}
